@@ -16,6 +16,8 @@ def run(ctx, idx):
     ctx.rule("C03.c", "The returned value is a masked array whose mask is built from input masks (no constant mask on a value that depends on inputs).")
     ctx.rule("C03.d", "insure_fuzzy keeps the mask: on a symbolic masked argument it returns the same object, still masked, with coverage and payload unchanged (summary computed from its body).")
     ctx.rule("C03.e", "Readers: the mask stored on the returned array derives from a comparison of the data with the cleaned missing-value parameter (plus the file's own mask for NetCDF) and is stored on the returned local.")
+    ctx.rule("C03.g", "Which cells are missing is decided from the file / the inputs of THIS execution: no data command hands out arrays kept in module-level state or by a cached helper without copying them (decided before the array analyser runs) - in-place work on such an array (fill values stamped under the mask) destroys the sentinel the next reader looks for, and its missing cells come out as numbers.")
+    R.no_kept_state(ctx, idx, "C03.g", None, "; the fill value stamped under the mask by one execution replaces the missing-value marker in the kept array, so the next execution finds no cell equal to it and returns the missing cells as valid numbers", copies_suffice=True)
     coverage(ctx, idx, "C03.a", "C03.b", "C03.c")
     ctx.rule("C03.f", "A result's missing cells are its own: no command writes in place through one of its inputs (into its data or its mask buffer), or cells become missing - or stop being missing - in a result that was never computed from the cells concerned.")
     for d_, r_ in R.data_commands(idx):
